@@ -308,6 +308,10 @@ impl Default for Cfg {
     }
 }
 
+/// Connections the (simulated) transport finds closed in `ServerSet::ReceivePackets` of the next frame.
+#[derive(Resource, Default)]
+pub struct DropInReceive(pub Vec<Entity>);
+
 /// Connections the (simulated) transport closes after `ServerSet::Send` of the current frame.
 #[derive(Resource, Default)]
 pub struct DropAfterSend(pub Vec<Entity>);
@@ -489,6 +493,17 @@ pub fn build_app_with(cfg: &Cfg, extra_rule: bool) -> App {
     if extra_rule {
         app.replicate::<Extra>();
     }
+    // a transport that notices a closed connection while receiving: it despawns the connection
+    // entity through `Commands` inside its receive set
+    app.init_resource::<DropInReceive>().add_systems(
+        PreUpdate,
+        (|mut list: ResMut<DropInReceive>, mut commands: Commands| {
+            for e in list.0.drain(..) {
+                commands.entity(e).despawn();
+            }
+        })
+        .in_set(ServerSet::ReceivePackets),
+    );
     // a transport that closes a connection between the library's send systems and its own flush
     app.init_resource::<DropAfterSend>().add_systems(
         PostUpdate,
@@ -1017,6 +1032,15 @@ impl Sim {
     pub fn disconnect_after_send(&mut self, c: usize) {
         if let Some(conn) = self.clients[c].conn {
             self.server.world_mut().resource_mut::<DropAfterSend>().0.push(conn);
+            self.pending_drop = Some(c);
+        }
+    }
+
+    /// The transport notices in its receive set of the server's next frame that `c`'s connection
+    /// is gone (the messages `c` sent before are already in the server's mailbox).
+    pub fn disconnect_in_receive(&mut self, c: usize) {
+        if let Some(conn) = self.clients[c].conn {
+            self.server.world_mut().resource_mut::<DropInReceive>().0.push(conn);
             self.pending_drop = Some(c);
         }
     }
